@@ -10,7 +10,14 @@
    object with that triple is created by load.  Runs on the basis-management machine of Model/C04.v.
 
    Part C - units: an energy-units-managed quantity is stored in internal units (Model/C05.v
-   conversions); the parcel copies the stored value. *)
+   conversions); the parcel copies the stored value.
+
+   Part D - savedir / loaddir sessions (core/saveable.py).
+
+   Part E - what the static tie (harness/translate_c18.py, Proofs/C18gen.v) reads off the code in addition: the dtype of
+   the packed array (values stored into it are cast), the kind of writer/reader pair an extension dispatches to, and
+   the `ndmin` the text reader passes to numpy.loadtxt. *)
+From Coq Require Import String.
 From Coq Require Import List Bool Arith QArith.
 From Coq Require Import ZArith.
 From QV Require Import Base.Alg Base.Sums Base.Mat Base.Tens Base.Util Model.C04 Model.C04x Model.C05.
@@ -306,3 +313,42 @@ Definition dout_eqb (a b : dout nat) : bool :=
 Definition dcase := (list (dop nat) * list (dout nat))%type.
 Definition dcase_agrees (c : dcase) : bool := all2 dout_eqb (snd (drun nat TagRepaired (no_dirs nat) (fst c))) (snd c).
 Definition dcase_pinned_agrees (c : dcase) : bool := all2 dout_eqb (snd (drun nat TagPinned (no_dirs nat) (fst c))) (snd c).
+
+(* ---------------------------------------------------------------------------------------------- *)
+(*  Part E - dtype of the packed array, dispatch by extension, ndmin of the text reader            *)
+(* ---------------------------------------------------------------------------------------------- *)
+(* numpy's numeric tower as far as the packed array is concerned: integer (and bool) < float < complex;
+   numpy.result_type of two of them is the larger one *)
+Inductive dty := DInt | DReal | DCplx.
+Definition dt_le (a b : dty) : bool :=
+  match a, b with DInt, _ => true | DReal, DInt => false | DReal, _ => true | DCplx, DCplx => true | DCplx, _ => false end.
+Definition dt_join (a b : dty) : dty := if dt_le a b then b else a.
+
+Section Typed.
+  Variable A : Type.
+  Variable cast : dty -> A -> A.          (* what storing a value into an array of that dtype keeps of it *)
+  Definition amap (f : A -> A) (d : arr A) : arr A :=
+    match d with A0 x => A0 (f x) | A1 l => A1 (map f l) | A2 w rows => A2 w (map (map f) rows) end.
+  (* _data_with_axis with the packed array allocated as dtype dt *)
+  Definition pack_t (dt : dty) (ax : list A) (d : arr A) : option (arr A) := pack A (map (cast dt) ax) (amap (cast dt) d).
+  Definition fits (t : dty) (x : A) : Prop := cast t x = x.
+End Typed.
+
+(* the writer/reader pairs: savetxt/loadtxt, save/load, savez_compressed/load[key], savemat/loadmat[key] *)
+Inductive wkind := KText | KNpy | KNpz | KMat.
+Definition kind_of (f : fmt) : wkind := match f with Dat | Txt => KText | Npy => KNpy | Npz => KNpz | Mat => KMat end.
+Definition ext_of (f : fmt) : string := match f with Dat => ".dat" | Txt => ".txt" | Npy => ".npy" | Npz => ".npz" | Mat => ".mat" end%string.
+Definition text_ndmin (v : dvariant) (with_axis : bool) : Z := if with_axis && text_axis_ndmin2 v then 2%Z else 0%Z.
+Definition through_k (A : Type) (v : dvariant) (k : wkind) (with_axis : bool) (d : arr A) : option (arr A) :=
+  match k with
+  | KText => match d with
+             | A0 _ => None
+             | _ => Some (if (text_ndmin v with_axis =? 2)%Z then d else squeeze A d)
+             end
+  | KNpy => Some d
+  | KNpz => if with_axis && negb (npz_axis_saves v) then None else Some d
+  | KMat => Some (atleast2d A d)
+  end.
+
+(* the cast of the correspondence instance (Gaussian integers): a real or integer array keeps the real part *)
+Definition zcast (t : dty) (x : Z * Z) : Z * Z := match t with DCplx => x | _ => (fst x, 0%Z) end.
